@@ -21,7 +21,7 @@ class Deadlock(Exception):
 class Execution(object):
   """One controlled execution of a set of thread bodies under a schedule prefix."""
 
-  def __init__(self, choices, files, skip_inside=('transform_ast',), max_points=20000):
+  def __init__(self, choices, files, skip_inside=('transform_ast', '_identifiers_of'), max_points=20000):
     self.choices = list(choices)
     self.files = tuple(files)
     self.skip_inside = tuple(skip_inside)
